@@ -81,6 +81,8 @@ def run(ctx):
                 # directive lines continued over a line break with blanks after the backslash; a region; a namespace at the end
                 txt += rng.choice(["#pragma region tail \\  \n    more\n", "#pragma mark x \\ \t \n    y\n#define CONT2(a) f(a); \\   \n   g(a)\n",
                                    "#error message \\    \n   continued\n"])
+            if lang != "JAVA" and rng.random() < 0.4:
+                txt += "#if A\n#if B\n#define DEEP(x) \\\n        first(x); \\\n        second(x)\n#if C\nint deep_v;\n#endif\n#endif\n#endif\n"
             tailns = lang == "CPP" and rng.random() < 0.3
             if tailns:
                 txt += "namespace tailns {\nint tv;\n}\n"
@@ -105,6 +107,10 @@ def run(ctx):
                         "nl_end_of_file": rng.choice(["ignore", "add", "remove", "force"]), "nl_end_of_file_min": rng.choice([0, 1, 2, 3]),
                         "nl_start_of_file": rng.choice(["ignore", "ignore", "add", "remove", "force"]),
                         "nl_start_of_file_min": rng.choice([0, 1, 2])}
+                if rng.random() < 0.2:
+                    # the matrix of the two tab policies: code and preprocessor lines governed by different settings
+                    opts.update({"indent_with_tabs": rng.choice([0, 1, 2]), "pp_indent_with_tabs": rng.choice([0, 1, 2]),
+                                 "pp_indent": rng.choice(["add", "force"]), "pp_indent_count": rng.choice([1, 4, 8])})
                 if tailns and rng.random() < 0.7:
                     # the last newline chunk follows a namespace brace: do_blank_lines() does not force it to 1
                     opts.update({"nl_before_namespace": 2, "nl_end_of_file": rng.choice(["force", "force", "add"]), "nl_end_of_file_min": rng.choice([1, 2])})
